@@ -283,9 +283,41 @@ func (g *G) step() {
 	case 3:
 		g.malformedOp()
 	case 4:
-		if p.Faults && r.P(1, 3) {
-			g.emit("failat %d", r.N(5))
+		if p.Faults && r.P(1, 12) {
+			g.mintFaultScript()
+			return
 		}
+		if p.Faults && r.P(1, 3) {
+			if r.P(1, 4) {
+				// if the failing call is the conversion of a registered token, it fails without saying so
+				g.emit("failat %d silent", r.N(3))
+			} else {
+				g.emit("failat %d", r.N(5))
+			}
+		}
+		g.block()
+	}
+}
+
+// mintFaultScript: a tenant that pays by minting its own token; the mint of the first record that comes due fails once. The record and
+// the one behind it stay pending and are paid, in order, once the contract works again.
+func (g *G) mintFaultScript() {
+	r := g.r
+	admin := rng.Pick(r, accs[:5])
+	t := &tenant{id: len(g.tenants) + 1, admins: []string{admin}, denom: "uusdc", method: "mint"}
+	g.emit("createtenant %s %s 2 %s", admin, e("uusdc"), e("0x00000000000000000000000000000000000000e1"))
+	g.tenants = append(g.tenants, t)
+	g.emit("setowner %s %s %s", e(contracts[0]), e(tokens[0]), accs[6])
+	for i := 0; i < 2; i++ {
+		req := fmt.Sprintf("mf%d", t.nreq)
+		t.nreq++
+		g.emit("record %s %d %s %d %s %s %s %s", admin, t.id, e(req), 3+r.N(9), e("uusdc"), e(world.ThisChain), e(contracts[0]), e(tokens[0]))
+		t.pending = append(t.pending, req)
+	}
+	g.block()
+	g.emit("failat 0")
+	g.block()
+	for i := 0; i < 3; i++ {
 		g.block()
 	}
 }
